@@ -94,6 +94,18 @@ class Ctx:
             self.cov['drift'].append(what)
             print('DRIFT property=%s %s' % (self.pid, what))
 
+    def extra(self, name, fn, *args):
+        """Run an extra module (behaviour beyond the listed property, see DESIGN 10.6).  Whatever goes wrong inside it --
+        a refactoring of valjean it cannot follow, a TLC failure -- must not break the check of the property itself:
+        it is reported as one DRIFT line and recorded."""
+        try:
+            return fn(self, *args)
+        except Exception as ex:  # pylint: disable=broad-except
+            msg = 'extra module %s could not run: %s: %s' % (name, type(ex).__name__, str(ex).strip().splitlines()[0][:300] if str(ex).strip() else '')
+            self.cov.setdefault('extra_module_errors', []).append(msg)
+            self.drift(msg)
+            return None
+
     # ---- violations -------------------------------------------------
     def violation(self, key, what, case, module=None, fn='replay_case'):
         """Report a property violation for finding-class `key` (first case per key is kept)."""
